@@ -45,6 +45,16 @@ pub fn remove_file_ignore_not_found(path: impl AsRef<Path>) -> io::Result<()> {
     Ok(())
 }
 
+/// Returns the metadata of the path, following symlinks, or `None` if the path does not exist. Unlike
+/// `Path::exists()` and `Path::is_file()`, any other failure is returned rather than read as absence.
+pub fn metadata_if_exists(path: impl AsRef<Path>) -> io::Result<Option<fs::Metadata>> {
+    match fs::metadata(path) {
+        Ok(metadata) => Ok(Some(metadata)),
+        Err(e) if e.kind() == ErrorKind::NotFound => Ok(None),
+        Err(e) => Err(e),
+    }
+}
+
 /// Returns true if the specified directory does not contain any files
 pub fn dir_is_empty(dir: impl AsRef<Path>) -> Result<bool> {
     Ok(fs::read_dir(dir)?.next().is_none())
